@@ -443,6 +443,24 @@ theorem Inv.step {s s' : State} (h : Inv s) {t : Nat} {a : Act} (hs : step s t a
       | idle => simp [hthr] at hs
       | sync f rest => simp only [hthr] at hs; exact stepFrame_inv h hup hthr hs
       | start pc l pass c => simp only [hthr] at hs; exact stepStart_inv h hup hthr hs
+  | fail =>
+    simp only at hs
+    cases hup : s.up (s.proc t) with
+    | false => simp [hup] at hs
+    | true =>
+      simp only [hup, if_true] at hs
+      cases hthr : s.thr t with
+      | idle => simp [hthr] at hs
+      | sync f rest => simp [hthr] at hs
+      | start pc l pass c =>
+        simp only [hthr] at hs
+        by_cases hpc : pc = .fk
+        · simp only [hpc, if_true, Option.some.injEq] at hs; subst hs
+          refine h.upd t .idle rfl rfl rfl rfl hup ?_ ?_ rfl rfl rfl rfl ?_
+          · exact h.acc.pure t _ (by intro L; simp [hthr, hpc, TState.held, SPc.has])
+          · trivial
+          · intro hne; have := h.tin t hne; simp [hthr, TState.inside] at this
+        · simp [hpc] at hs
   | raise =>
     simp only at hs
     cases hup : s.up (s.proc t) with
